@@ -402,6 +402,14 @@ func runC13Inner(c *C13Case) (res c13Result) { //nolint:cyclop,gocyclo,maintidx
 				}
 				got = append(got, rx{from: from.String(), data: append([]byte{}, buf[:k]...), at: time.Now()})
 				rmu.Unlock()
+				if ua, ok := from.(*net.UDPAddr); ok && c.ReuseAddr {
+					// the application does what it likes with the address it was handed (it is a
+					// return value): e.g. turns it into the address it answers to
+					ua.Port ^= 0x5555
+					if len(ua.IP) > 0 {
+						ua.IP[len(ua.IP)-1] ^= 0x55
+					}
+				}
 			}
 		}()
 	} else {
